@@ -14,7 +14,7 @@ rm -f gen/lc-src/*_test.go
 chmod -R u+w gen/lc-src
 printf 'module github.com/boz/go-lifecycle\n\ngo 1.18\n' > gen/lc-src/go.mod
 cp gen/lc-src/go.mod gen/go-lifecycle/go.mod
-bin/chanxform -q -dir gen/lc-src -copy-module gen/go-lifecycle .
+bin/chanxform -q -goprefix lib: -dir gen/lc-src -copy-module gen/go-lifecycle .
 [ "${1:-}" = "gen-only" ] && exit 0
 # warm the build cache with every harness binary
 S=$(mktemp -d /var/tmp/vsetup-XXXXXX)
